@@ -235,6 +235,13 @@ type failure struct {
 
 const staleSig = "C23/pre-existing-object-unreadable-after-repack-by-other-instance"
 
+// closedSig: IterEncodedObjects puts FSObjects bound to the iterator's own pack
+// cursor into the shared object cache; a concurrent reader (cache hit, delta
+// base lookup, another iterator) that passes FSObject's "is the FD live" probe
+// and then reads after the owning iterator closed its cursor gets
+// "file already closed".
+const closedSig = "C23/cached-object-bound-to-closed-iterator-cursor:file-already-closed"
+
 func knownSig(sig string) bool {
 	for _, k := range strings.Split(os.Getenv("VERIF_KNOWN"), "\x1f") {
 		if k == sig {
@@ -305,9 +312,20 @@ func check(c Case) (res evid.Result) {
 	writerPhase.Store("none")
 	var repackBegun atomic.Bool
 	// errSig maps an error on a pre-existing object to its signature
+	hasIter := false
+	for _, r := range c.Readers {
+		for _, op := range r {
+			if op.Kind == "iter" {
+				hasIter = true
+			}
+		}
+	}
 	errSig := func(op string, err error) string {
 		if repackBegun.Load() && staleClass(err) {
 			return staleSig
+		}
+		if hasIter && strings.Contains(err.Error(), "file already closed") {
+			return closedSig
 		}
 		return fmt.Sprintf("C23/%s/error:%s", op, errClass(err))
 	}
